@@ -52,12 +52,19 @@ type chunkReader struct {
 	withData bool
 	k        int
 	dead     bool
-	after    int // Read calls after the terminal error was delivered
+	alone    bool // the terminal event was delivered by itself: (0, err)
+	after    int  // Read calls after the terminal error was delivered by itself
 }
 
 func (c *chunkReader) Read(p []byte) (int, error) {
 	if c.dead {
-		c.after++
+		// io.ReadFull drops an error that arrives together with the bytes that
+		// fill its buffer, so only an error delivered by itself is certain to
+		// have been seen by the scanner
+		if c.alone {
+			c.after++
+		}
+		c.alone = true
 		return 0, c.term
 	}
 	if len(p) == 0 {
@@ -65,6 +72,7 @@ func (c *chunkReader) Read(p []byte) (int, error) {
 	}
 	if len(c.data) == 0 {
 		c.dead = true
+		c.alone = true
 		return 0, c.term
 	}
 	n := len(c.data)
